@@ -305,7 +305,9 @@ def _run_group(g, r, sdir, log):
         else:
             gb2 = gb1
         return gb2
-    gb2 = build('', [])
+    # one binary carries both the obligations and the vacuity canaries (assertions do not constrain
+    # paths in CBMC, so a canary that is expected to FAIL does not influence the other verdicts)
+    gb2 = build('', ['-DVF_CANARY'] if g.covers else [])
     # 5. solve
     base = ['cbmc', gb2, '--json-ui']
     if g.malloc_fail:
@@ -387,75 +389,16 @@ def _run_group(g, r, sdir, log):
                 results += res
                 r.solver_s += dt
     bad = []
+    end_ok, n_end, abort_ok = True, 0, False
     for p in results:
         st = p.get('status')
-        r.obligations.append((p.get('property'), st, p.get('description', '')))
-        if st == 'FAILURE':
-            tr = p.get('trace', [])
-            r.failed.append({'name': p.get('property'), 'description': p.get('description', ''),
-                             'inputs': extract_inputs(tr), 'trace': compact_trace(tr),
-                             'location': p.get('sourceLocation', {})})
-        elif st != 'SUCCESS':
-            bad.append(p.get('property') + ':' + str(st))
-    if bad:
-        raise Infra("obligations without verdict (solver unknown/error): " + ', '.join(bad[:5]))
-    # vacuity: obligation inventory
-    names = [o[0] for o in r.obligations]
-    if len(names) < g.expect_min:
-        raise Infra("only %d obligations generated, expected at least %d" % (len(names), g.expect_min))
-    for pat in g.must_have:
-        if not any(re.search(pat, n) for n in names):
-            raise Infra("expected obligation missing: " + pat)
-    # a P/S group must not rely on unwinding unless it says so
-    if r.failed:
-        r.status = 'fail'
-    else:
-        r.status = 'pass'
-    # 6. vacuity run: the same group rebuilt with -DVF_CANARY; every canary assertion
-    #    ("normal return reachable", "abort reachable", per-instance reach goals) must FAIL
-    if g.covers and r.status == 'pass':
-        gbc = build('c', ['-DVF_CANARY'])
-        rc, out, dt = sh(['cbmc', gbc, '--show-properties', '--json-ui'], sdir, 300, log)
-        props = []
-        for x in _parse_cbmc_json(out):
-            if isinstance(x, dict) and 'properties' in x:
-                for p in x['properties']:
-                    if p.get('description', '').startswith('VF-CANARY') and p['name'].split('.')[0] in (g.harness, 'abort'):
-                        props.append((p['name'], p['description']))
-        if not props:
-            raise Infra("vacuity guard: no canary in the instrumented program")
-        # plain-text UI: with --json-ui CBMC attaches a full trace to every failing canary
-        # (gigabytes for long concrete executions); the text UI prints only the verdicts
-        cov = [gbc if a == gb2 else a for a in base if a != '--json-ui']
-        for n, _d in props:
-            cov += ['--property', n]
-        if g.solver == 'cvc5' and g.cover_solver:
-            cov += ['--cvc5']
-        w = SOLVER_SLOTS.acquire(g.weight)
-        try:
-            rc, out, dt = sh(cov, sdir, g.timeout, log)
-        finally:
-            SOLVER_SLOTS.release(w)
-        r.solver_s += dt
-        if rc not in (0, 10):
-            raise Infra("cbmc vacuity run exited with %d" % rc)
-        desc = dict(props)
-        res = []
-        for ln in out.decode('utf-8', 'replace').splitlines():
-            m = re.match(r'^\[([^\]]+)\] .*: (SUCCESS|FAILURE|UNKNOWN|ERROR)\s*$', ln)
-            if m and m.group(1) in desc:
-                res.append({'property': m.group(1), 'description': desc[m.group(1)], 'status': m.group(2)})
-        if not res:
-            raise Infra("no result in vacuity run")
-        end_ok, n_end, abort_ok = True, 0, False
-        for p in res:
-            d = p.get('description', '')
-            if not d.startswith('VF-CANARY'):
-                continue
-            fn_ = p.get('property', '').split('.')[0]
+        d = p.get('description', '')
+        if 'VF-CANARY' in d:
+            # vacuity canary: must be reachable, i.e. the assertion must FAIL
+            fn_ = (p.get('property') or '').split('.')[0]
             if fn_ not in (g.harness, 'abort'):
                 continue
-            reached = p.get('status') == 'FAILURE'
+            reached = (st == 'FAILURE')
             r.cover_total += 1
             r.cover_sat += 1 if reached else 0
             if 'abort reachable' in d:
@@ -465,10 +408,30 @@ def _run_group(g, r, sdir, log):
                 end_ok = end_ok and reached
                 if not reached:
                     r.covers['unreached: ' + d] = False
+            continue
+        r.obligations.append((p.get('property'), st, d))
+        if st == 'FAILURE':
+            tr = p.get('trace', [])
+            r.failed.append({'name': p.get('property'), 'description': d,
+                             'inputs': extract_inputs(tr), 'trace': compact_trace(tr),
+                             'location': p.get('sourceLocation', {})})
+        elif st != 'SUCCESS':
+            bad.append(str(p.get('property')) + ':' + str(st))
+    if bad:
+        raise Infra("obligations without verdict (solver unknown/error): " + ', '.join(bad[:5]))
+    names = [o[0] for o in r.obligations]
+    if len(names) < g.expect_min:
+        raise Infra("only %d obligations generated, expected at least %d" % (len(names), g.expect_min))
+    for pat in g.must_have:
+        if not any(re.search(pat, n) for n in names):
+            raise Infra("expected obligation missing: " + pat)
+    r.status = 'fail' if r.failed else 'pass'
+    if g.covers:
         r.covers['end'] = end_ok and n_end > 0
         r.covers['abort'] = abort_ok
-        for c in g.covers:
-            if not r.covers.get(c, False):
-                r.status = 'undecided'
-                r.reason = "vacuity guard: canary '%s' not reachable (%s)" % (
-                    c, '; '.join(k for k in r.covers if k.startswith('unreached'))[:200])
+        if r.status == 'pass':
+            for c in g.covers:
+                if not r.covers.get(c, False):
+                    r.status = 'undecided'
+                    r.reason = "vacuity guard: canary '%s' not reachable (%s)" % (
+                        c, '; '.join(k for k in r.covers if k.startswith('unreached'))[:200])
